@@ -5,7 +5,7 @@ from __future__ import annotations
 import ast
 
 from sa.cfg import G_EXC, all_paths_pass, both, exc_filter, find_path, fmt_path, reachable, reaches, specialize
-from sa.db import AnalysisError, dotted, src, walk_local
+from sa.db import AnalysisError, ancestors, dotted, src, walk_local
 from sa.flow import refine_constants
 from sa.model import (
     PROC_METHODS,
@@ -41,6 +41,30 @@ DISPATCHER_MOD = "hypergraph.events.dispatcher"
 
 def _exc_only(info: frozenset) -> bool:
     return G_EXC in info or any(a.startswith("cls:") for a in info)
+
+
+def check_except_alias_scope(ctx, rule: str) -> None:
+    """Python unbinds the name of ``except ... as name`` when the handler ends: reading it afterwards raises
+    UnboundLocalError. In the delivery functions such a read sits outside every guard — the error escapes into the
+    runner exactly when a processor has failed."""
+    db, rep = ctx.db, ctx.rep
+    n = 0
+    for f in db.funcs_in("events"):
+        handlers = [h for h in walk_local(f.node) if isinstance(h, ast.ExceptHandler) and h.name]
+        if not handlers:
+            continue
+        n += 1
+        bad = None
+        for h in handlers:
+            assigned_elsewhere = any(isinstance(x, ast.Name) and x.id == h.name and isinstance(x.ctx, ast.Store) for x in walk_local(f.node))
+            if assigned_elsewhere:
+                continue
+            for x in walk_local(f.node):
+                if isinstance(x, ast.Name) and x.id == h.name and isinstance(x.ctx, ast.Load) and not any(isinstance(a, ast.ExceptHandler) and a.name == h.name for a in ancestors(x)):
+                    bad = bad or (h, x)
+        rep.add(rule, f"{f.qname}:except-alias-read-inside-handler", bad is None, f"{f.module.rel}:{(bad[1] if bad else f.node).lineno}", "names bound by 'except ... as' are read inside their handlers only" if bad is None else f"'{bad[0].name}' is bound by 'except ... as {bad[0].name}' and read at line {bad[1].lineno}, after the handler has ended: Python has unbound it by then, so the read raises UnboundLocalError outside every guard — as soon as the condition leading there holds (e.g. two processors failed on one event) the dispatcher itself raises into the runner")
+    if n < 1:
+        rep.ok(rule, "events:except-alias-read-inside-handler", "src/hypergraph/events", "no handler of the observer layer binds the exception to a name")
 
 
 def check_no_global_rng(ctx, rule: str) -> None:
@@ -150,6 +174,7 @@ def run(ctx) -> None:
 
     # ---- R1 -----------------------------------------------------------------
     check_delivery_guarded(ctx, "C13.R1")
+    check_except_alias_scope(ctx, "C13.R1")
 
     # ---- R7 -----------------------------------------------------------------
     # The supersteps call the build_*_event helpers only when processors are registered, outside the
